@@ -1321,18 +1321,25 @@ func (d *DotGit) RemoveRef(name plumbing.ReferenceName) error {
 		return err
 	}
 
+	// The packed entry goes first. While the loose file is still there it
+	// shadows the packed one, so stopping half-way leaves the reference as it
+	// was; the other way round, a stale packed value (possibly naming an
+	// object that has been pruned since) would come back to life.
+	if err := d.rewritePackedRefsWithoutRef(name); err != nil {
+		return err
+	}
+
 	path := d.fs.Join(".", name.String())
 	_, err := d.fs.Stat(path)
 	if err == nil {
 		err = d.fs.Remove(path)
-		// Drop down to remove it from the packed refs file, too.
 	}
 
 	if err != nil && !os.IsNotExist(err) {
 		return err
 	}
 
-	return d.rewritePackedRefsWithoutRef(name)
+	return nil
 }
 
 func refsRecvFunc(refs *[]*plumbing.Reference, seen map[plumbing.ReferenceName]bool) refsRecv {
